@@ -464,7 +464,8 @@ func (de *dEval) evalC07(f *Fault) {
 			rerr = guard(func() error { return klevdb.Recover(d, kopts) })
 		default:
 			ro := de.r.OOpts
-			ro.Check, ro.Recover, ro.Eager, ro.Readonly = false, true, false, false
+			// "If both Check and Recover are set, Open will directly try to recover": same thing
+			ro.Check, ro.Recover, ro.Eager, ro.Readonly = frng.Chance(30), true, false, false
 			if via == "Open(Recover+Eager)" {
 				ro.Eager, ro.Keep, ro.NewV = true, false, 3-ver
 			}
